@@ -339,7 +339,10 @@ func runC02(c *Ctx) error {
 				"result": bigsString(res.gRes), "max_fragment": fmt.Sprint(frag)})
 		}
 	}
-	return c02LongLivedOT(c)
+	if err := c02LongLivedOT(c); err != nil {
+		return err
+	}
+	return c02CLI(c)
 }
 
 // c02LongLivedOT: one OT object per PEER, kept over several sessions (each session on a new
